@@ -79,6 +79,7 @@ CLS = {
     'H': dict(cols=[('a1', dict(fk=('A', 'n'))), ('a2', dict(fk=('A', 'c')))]),
     'G': dict(cols=[('a1', dict(fk=('A', 'r'))), ('a2', dict(fk=('A', 'c')))]),
     'K': dict(cols=[('a1', dict(fk=('A', 'n'))), ('a2', dict(fk=('A', 'r')))]),
+    'LC': dict(lazy=True, cols=[('a', dict(fk=('A', 'n'))), ('m', {})]),
     'Lz': dict(lazy=True, cols=[('n', dict(alt=True)), ('m', {})], props=True),
     'Par': dict(inh=True, cols=[('a', dict(alt=True))]),
     'Chi': dict(parent='Par', cols=[('b', dict(alt=True)), ('c', dict(check=100))]),
@@ -87,9 +88,9 @@ CLS = {
     'DP': dict(cols=[('ref', dict(fk=('Par', 'c')))]),
 }
 ORDERS = [
-    ['A', 'F', 'B', 'C', 'D', 'E', 'N', 'H', 'G', 'K', 'Lz', 'Par', 'Chi', 'Gra', 'DC', 'DP'],
-    ['D', 'A', 'C', 'G', 'B', 'E', 'F', 'H', 'K', 'N', 'Lz', 'Par', 'Chi', 'DP', 'Gra', 'DC'],
-    ['H', 'B', 'E', 'C', 'F', 'A', 'D', 'N', 'G', 'Par', 'Chi', 'Gra', 'Lz', 'K', 'DC', 'DP'],
+    ['A', 'F', 'B', 'C', 'D', 'E', 'N', 'H', 'G', 'K', 'LC', 'Lz', 'Par', 'Chi', 'Gra', 'DC', 'DP'],
+    ['D', 'A', 'C', 'G', 'B', 'E', 'F', 'H', 'K', 'LC', 'N', 'Lz', 'Par', 'Chi', 'DP', 'Gra', 'DC'],
+    ['H', 'B', 'E', 'C', 'F', 'A', 'D', 'N', 'G', 'Par', 'Chi', 'Gra', 'Lz', 'K', 'LC', 'DC', 'DP'],
 ]
 LINKS = [('lk0', 'a_id', 'f_id')]
 CHILDNAME = {'Chi': 1, 'Gra': 2, None: None}
@@ -728,6 +729,12 @@ def directed(vi):
                 ['destroy', A, 1]))
     out.append(('destroy-null-and-restrict-in-one-class-not-refused', hA + [mk_create(v, 'K', a1=1, a2=2), mk_create(v, 'K', a1=1, a2=None)],
                 ['destroy', A, 1]))
+    LC = ix['LC']
+    out.append(('destroy-lazy-referrer', hA + [mk_create(v, 'LC', a=1, m=1), mk_create(v, 'LC', a=1, m=2), ['forget', LC, 2]],
+                ['destroy', A, 1]))
+    out.append(('destroy-lazy-referrer-with-pending', hA + [mk_create(v, 'LC', a=1, m=1), ['set', LC, 1, [(1, 7)], ''],
+                                                            mk_create(v, 'LC', a=2, m=2), ['set', LC, 2, [(0, 1)], '']],
+                ['destroy', A, 1]))
     hG = [mk_chain(v, 1, 1, 1)]
     out.append(('chain3-ok', hG, mk_chain(v, 2, 2, 2)))
     out.append(('chain3-dup-leaf', hG, mk_chain(v, 2, 2, 1)))
@@ -764,7 +771,7 @@ def random_case(ctx, vi):
             if rng.random() < 0.5:
                 hist.append(['link', 0, a, i])
     ids['F'] = list(range(1, nF + 1))
-    for dep in ['B', 'C', 'D', 'N', 'H', 'G', 'K']:
+    for dep in ['B', 'C', 'D', 'N', 'H', 'G', 'K', 'LC']:
         ids[dep] = []
         p = 0.25 if dep == 'D' else 0.6
         for _ in range(rng.randint(0, 2)):
@@ -783,6 +790,10 @@ def random_case(ctx, vi):
             else:
                 hist.append(mk_create(v, dep, a=a))
             ids[dep].append(i)
+            if dep == 'LC' and rng.random() < 0.5:
+                # something else pending on the lazy referrer (written together with the NULL by syncUpdate)
+                hist.append(['set', ix['LC'], i, [(1, rng.randint(3, 9))] + ([(0, rng.choice(ids['A']))] if rng.random() < 0.3 else []), ''])
+                continue
             if rng.random() < 0.3:
                 hist.append(['forget', ix[dep], i])
                 forgot.add((dep, i))
@@ -886,15 +897,28 @@ def jsonable(x):
     return x
 
 
+def op_rename(op, f):
+    """apply f to every class reference of an operation (corpus files name classes, the harness indexes them)"""
+    op = list(op)
+    name = op[0]
+    if name == 'link':
+        return op
+    if name == 'createChain':
+        op[1] = [[f(c), kw] for c, kw in op[1]]
+        op[2] = [[f(c), j, x] for c, j, x in op[2]]
+        return op
+    op[1] = f(op[1])
+    return op
+
+
 def load_corpus():
     out = []
     d = os.path.join(os.path.dirname(os.path.dirname(os.path.abspath(__file__))), 'corpus', 'C06')
     for path in sorted(glob.glob(os.path.join(d, '*.json'))):
         for case in json.load(open(path)):
-            if case.get('registry_order') not in (None, ORDERS[case['variant']]):
-                raise ValueError('corpus case %r was written for another class list; regenerate it' % case.get('name'))
+            ix = variant(case['variant']).idx
             out.append((os.path.basename(path) + ':' + case.get('name', '?'), case['variant'],
-                        un_json(case['history']), un_json(case['op'])))
+                        [op_rename(h, ix.__getitem__) for h in case['history']], op_rename(case['op'], ix.__getitem__)))
     return out
 
 
